@@ -368,7 +368,7 @@ func c43Scratch() string {
 }
 
 func c43(c *report.Check) {
-	kinds := c43Kinds[:5]
+	kinds := c43Kinds[:6] // incl. Nh3: a target-less entry that still holds a registered generated hostname
 	maxLen := 3
 	if c.Thorough() {
 		kinds = c43Kinds
